@@ -85,3 +85,32 @@ Definition fin (h : hist) (a : Z) : Prop := In a (finished h).
 Definition order_ok (h : hist) : Prop := forall b, In b (started h) -> forall a, In a (pre h b) -> fin h a.
 Definition order_okb (h : hist) : bool :=
   forallb (fun b => forallb (fun a => existsb (Z.eqb a) (finished h)) (pre h b)) (started h).
+
+(* ---- whole-run replay of a recorded, globally ordered trace (the fixed overtake schedule of harness/c05_sync.c):
+   the hook does not report the tau steps, so they are searched for: the acting thread's own taus right before its
+   event, and -- only when the event is not possible otherwise -- taus of another thread (a push on the root queue, the
+   store that links a pushed item).  Returns (-1, order_okb of the final history) when the whole trace is a run of the
+   model, else (index of the deepest event that could not be matched, false). ---- *)
+Definition xst := (gst * hist)%type.
+Definition xstep_with (ts : Z -> pc -> event -> option (pc * list act)) (x : xst) (t : Z) (e : event) : option xst :=
+  match gstep_with ts (fst x) t e with Some s' => Some (s', hstep_with ts (fst x) (snd x) t e) | None => None end.
+Fixpoint tau_states (ts : Z -> pc -> event -> option (pc * list act)) (n : nat) (x : xst) (t : Z) : list xst :=
+  x :: match n with
+       | O => []
+       | S n' => (match xstep_with ts x t (tau 0) with Some x0 => tau_states ts n' x0 t | None => [] end) ++
+                 (match xstep_with ts x t (tau 1) with Some x1 => tau_states ts n' x1 t | None => [] end)
+       end.
+Definition after_own ts (x : xst) (t : Z) (e : event) : list xst :=
+  flat_map (fun x0 => match xstep_with ts x0 t e with Some x' => [x'] | None => [] end) (tau_states ts 3 x t).
+Definition after_foreign ts (ths : list Z) (x : xst) (t : Z) (e : event) : list xst :=
+  flat_map (fun u => if u =? t then [] else flat_map (fun x0 => after_own ts x0 t e) (tl (tau_states ts 2 x u))) ths.
+Fixpoint xreplay ts (ths : list Z) (x : xst) (tr : list (Z * event)) (i : Z) : Z * bool :=
+  match tr with
+  | [] => (-1, order_okb (snd x))
+  | (t, e) :: tr' =>
+      let cands := match after_own ts x t e with [] => after_foreign ts ths x t e | l => l end in
+      fold_left (fun acc x' => if fst acc =? -1 then acc
+                               else let r := xreplay ts ths x' tr' (i + 1) in
+                                    if fst r =? -1 then r else (Z.max (fst acc) (fst r), false))
+                cands (i, false)
+  end.
